@@ -47,8 +47,8 @@ check('C16', 'rapidcheck differential between Verilated models of processor.sv, 
       'DESIGN.md 6 C16')
 
 check('C05', 'Hypothesis-generated assembly programs + complete boundary sweeps, decode-walk oracle over the source items, execution of tour programs on the ISA reference',
-      'Generated programs (mutually dependent reference lengths, distances on every encoding-length boundary in both directions, DATA alignment absorbing '
-      'size changes) are assembled by the working-tree assembler (sanitizer build, file interface); the image is walked in source order and every reference '
+      'Generated programs (mutually dependent reference lengths, distances on every encoding-length boundary in both directions, growth chains of up to 140 '
+      '(thorough: 1500) references that settle one link per layout pass, DATA alignment absorbing size changes) are assembled by the working-tree assembler (sanitizer build, file interface); the image is walked in source order and every reference '
       'must land on its label; unaligned absolute references must be rejected; header word and symbol table checked; tours executed on refisa.',
       'Trusted: asmgen.walk/decode_at (ISA prefix rule) and refisa. Termination is observed as a 10 s budget confirmed with a 60 s re-run. '
       'A rejection is accepted only for an absolute reference to a label that does not name a DATA word.',
@@ -69,9 +69,10 @@ check('C01', 'Hypothesis-generated X programs and inputs; differential against a
 
 check('C07', 'Hypothesis-generated expression trees, metamorphic relation between all-constant / mixed / all-run-time variants plus an independent evaluator',
       'For each tree, leaf assignment, constant mask and context, three programs (K all-constant, M mixed, R all-run-time) are compiled by the working-tree xcmp and '
-      'run on hexsim and refisa; all three must exit with the value a Python evaluator gives (wrap-around + - neg, exact relational operators).',
-      'Run-time leaves are global variables assigned from literals in main. Known finding KF-C07-01 (comparison whose operand difference overflows) is excluded '
-      'by construction and counted while open; its witness is replayed on every run.',
+      'run on hexsim and refisa; all three must exit with the value a Python evaluator gives (wrap-around + - neg; x < y as the sign of the wrapped difference, '
+      '<= > >= through it as xcmp rewrites them - the exact comparison whenever the difference is representable). All 32-bit leaf values are generated.',
+      'Run-time leaves are global variables assigned from literals in main. For comparisons whose operand difference wraps the run-time behaviour is the reference '
+      '(the property\'s wording); KF-C07-01 is fixed and its witness is replayed on every run.',
       'DESIGN.md 6 C07')
 check('C08', 'Hypothesis-generated X programs (normal, deep-recursion and array-filling modes) executed on the ISA reference under an on-line access monitor',
       'Every fetch/load/store of the compiled program is checked against regions derived from the binary itself: inside the 200000-word memory, no store to a fetched '
@@ -94,21 +95,25 @@ check('C06', 'Hypothesis-generated binaries and inputs; differential between the
 check('C13', 'seed enumeration on the real hextb + Hypothesis-drawn planted adversarial power-on states in a harness linking hextb.cpp\'s own load()/run()',
       'Seeds 1..K on shipped programs and random seeds on generated binaries must give the reference output/status/consumption; planted states (pc on a planted SVC, '
       'store, branch; all-ones; random) must leave registers zero, the image intact and no I/O after the reset window, and give the reference result.',
-      'Power-on space sampled through randReset seeds and planted states; reset window = first five rising edges.',
+      'Power-on space sampled through randReset seeds and planted states (each under three drawn seeds); reset window = first five rising edges. Binaries never read '
+      'a word they have not written (DESIGN 6 C13); 15 % of the tours exceed 64 KiB.',
       'DESIGN.md 6 C13')
 
 check('C11', 'Hypothesis-generated sources; self-differential under planted heap contents, preceding compilations and host configurations',
       'The same source is compiled/assembled in-process under heap fills 0x00/0xA5/0xFF (replaced operator new), after an unrelated compilation, and plain; and by the '
-      'real executables under ASLR on/off x environment sizes x MALLOC_PERTURB_: binaries, listings and --tree must be byte-identical.',
+      'real executables under ASLR on/off x environment sizes x MALLOC_PERTURB_, plus a renamed copy in a deep directory under another locale / time zone / HOME with '
+      'the binary written into a FIFO: binaries, listings, --tree and --memory-info must be byte-identical.',
       'Samples the dimensions the property names; an indeterminate read that neither fills nor perturbation reach is invisible.',
       'DESIGN.md 6 C11')
 check('C12', 'Hypothesis-generated images incl. dirty-read programs; placement-new into pre-filled storage, host configurations, agreement with the zero-memory ISA reference',
       'hexsim::Processor is constructed in storage filled with 0x00/0xA5/0xFF/pattern and must give the same run as the ISA reference from zeroed memory; the real executable '
-      'is run under ASLR on/off x environment sizes; --max-cycles cuts and -t (system-call sequence, status, input) are compared across all of them.',
+      'is run under ASLR on/off x environment sizes; --max-cycles cuts and -t (system-call sequence, status, input) are compared across all of them. Dirty-read '
+      'programs read never-written words anywhere, the words right behind the image (symbol tables of varied shape) and exhausted or missing input streams.',
       'A cut run has no prescribed status, only a repeatable one.',
       'DESIGN.md 6 C12')
 check('C14', 'model-based testing: Hypothesis-generated invocation histories over a scratch directory with a file-content model',
-      'Operation sequences (write accepted/rejected sources, pre-create outputs, hexasm/xcmp with every argument shape, xrun, hexsim) run against the real executables; '
+      'Operation sequences (write accepted/rejected sources, pre-create outputs, hexasm/xcmp with every argument shape and output names that cannot be created, xrun and '
+      'hexsim with --max-cycles / -t before or after the file) run against the real executables; '
       'after each step status, stderr, the named output (equal to the in-process compile of the same text) and every other file in the directory are checked against the model.',
       'Acceptance of odd sources is decided by the library entry point in-process. xrun\'s a.bin is exempt.',
       'DESIGN.md 6 C14')
